@@ -51,7 +51,7 @@ func c12Configs(id string, n int) []runCfg {
 	r := NewRNG(idSeed(id) + 99)
 	var out []runCfg
 	for i := 0; i < n; i++ {
-		out = append(out, runCfg{threads: r.PickInt([]int{1, 2, 4, 8, 16}), gomaxprocs: r.PickInt([]int{1, 2, 4, 16}), jitter: r.U64()})
+		out = append(out, runCfg{threads: r.PickInt([]int{1, 2, 4, 8, 16, 3, 0, -1}), gomaxprocs: r.PickInt([]int{1, 2, 4, 16}), jitter: r.U64()})
 	}
 	return out
 }
